@@ -39,6 +39,9 @@ var c03Templates = []string{
 	" a {%- if x -%} b {%- endif -%}",
 	"{{ x -}}{{ x | failing }} never",
 	"\n\t{{ x }}",
+	// variables a render creates must not be visible to the next one
+	"{% assign leak = 'L' %}{% capture leak2 %}M{% endcapture %}{% for leak3 in a %}{% endfor %}",
+	"<{{ leak }}{{ leak2 }}{{ leak3 }}|{{ forloop.index }}|{{ i }}{{ q }}{{ c }}{{ only }}>",
 	// thorough
 	"{{ ints | sort | join }}{{ strs | reverse | join }}{{ arr | sort | first }}{{ drop | sort | join }}{{ pst.A }}{{ st.C | sort | join }}",
 	"{{ ms | sort | join }}{{ rng | reverse | join }}{% for kv in m %}{{ kv[0] }}{% endfor %}{{ m.j | sort | join }}",
@@ -211,7 +214,7 @@ func firstDiff(a, b string) string {
 }
 
 func c03Families(tier string) []explore.Family {
-	nT, nB, depth := 20, 3, 2
+	nT, nB, depth := 22, 3, 2
 	if tier == "thorough" {
 		nT, nB, depth = len(c03Templates), 4, 3
 	}
@@ -319,7 +322,7 @@ func init() {
 	explore.Register(&explore.Prop{
 		ID:    "C03",
 		Level: "model_checking",
-		Rule: "explicit-state search over histories of renders R(t,b) on one shared world (one engine, templates parsed once, binding environments built once and shared by reference): all histories of length <=2 over 20 templates x 3 environments (quick) / <=3 over 30 x 4 (thorough), each replayed on a fresh world, plus 40-step round-robin histories from every starting operation; plus a family that keeps the []byte returned by a render of 0..2^20 bytes (13 sizes around 64, 4096, 65536) and re-reads it after later renders; " +
+		Rule: "explicit-state search over histories of renders R(t,b) on one shared world (one engine, templates parsed once, binding environments built once and shared by reference): all histories of length <=2 over 22 templates x 3 environments (quick) / <=3 over 32 x 4 (thorough), each replayed on a fresh world, plus 40-step round-robin histories from every starting operation; plus a family that keeps the []byte returned by a render of 0..2^20 bytes (13 sizes around 64, 4096, 65536) and re-reads it after later renders; " +
 			"templates cover assign of a bound name, capture, shadowing loops, cycle groups, nested loops with break, every array filter on bound arrays (incl. aliased sub-slices and spare capacity), include, a render failing half-way, tablerow, typed slices, structs, pointers, Drops, MapSlice, ranges; " +
 			"invariants after every step: deep snapshot of every environment unchanged (slices up to capacity, unexported fields, aliasing), result equals the solo result on a fresh engine/parse/bindings; structural changes of render trees / engine configuration are recorded (not alarms: the statement defines template immutability through re-render equality); state = canonical world snapshot after the history; transition = one render",
 		Assumptions: []string{
